@@ -326,6 +326,30 @@ class Cursor:
                 if t is not None:
                     res.append((e["name"] == "is_none", t))
                 return res
+        if k == "MethodCall" and e["name"] in ("is_some_and", "is_none_or") and len(e["args"]) == 1:
+            # `self.current().is_some_and(|c| c != '\n')` / `.is_some_and(Self::is_ws)`: absent -> the fixed answer, present -> the test on that character
+            oo = self.opt_offset(e["recv"], st)
+            if oo is not None:
+                res = []
+                none_st, some_st = st.learn(oo, "E"), st.learn(oo, "LN")
+                if none_st is not None:
+                    res.append((e["name"] == "is_none_or", none_st))
+                if some_st is not None:
+                    a = peel(e["args"][0])
+                    if a.get("k") == "Closure" and len(a.get("params", [])) == 1 and a["params"][0].get("k") == "PBinding":
+                        s2 = some_st.copy()
+                        s2.vars[a["params"][0]["name"]] = oo
+                        res += self.cond(a["body"], s2)
+                    else:
+                        pth = a.get("res") if a.get("k") == "Path" else None
+                        p = self.pred_at_newline(pth) if pth else None
+                        if p is False:
+                            res += [(True, some_st.learn(oo, "N") or some_st), (False, some_st.copy())]
+                        elif p is True:
+                            res += [(True, some_st.copy()), (False, some_st.learn(oo, "N") or some_st)]
+                        else:
+                            res += [(True, some_st), (False, some_st.copy())]
+                return res
         if k == "Call" and len(e["args"]) == 1 and self.offset_of(e["args"][0], st) is not None:
             p = self.pred_at_newline(callee_of(e) or "")
             o = self.offset_of(e["args"][0], st)
